@@ -469,7 +469,15 @@ pub fn parse_step(j: &Value) -> R<Step> {
                 Some(b) => b,
                 None => return bad("lifted flag", l),
             };
-            let fanout = if f.is_null() { None } else { Some(nat(f)?) };
+            // a fan-out may be any usize (the model clamps huge ones: they all mean "one group")
+            let fanout = if f.is_null() {
+                None
+            } else {
+                match f.as_i64() {
+                    Some(z) if z >= 0 => Some(z as usize),
+                    _ => return bad("fanout", f),
+                }
+            };
             Step::CombineGlobally(parse_cid(c)?, lifted, fanout)
         }
         Some(("distinct", [])) => Step::Distinct,
